@@ -378,6 +378,21 @@ func renderChecked(h *hval, ch chooser) (bs []byte, nchoice, varied int, err err
 	bs, nchoice, varied, _, err = renderChecked2(h, ch)
 	return
 }
+func renderCheckedPre(h *hval, ch chooser, pre []hclass) (bs []byte, nchoice, varied int, err error) {
+	r := &renderer{ch: ch}
+	for _, c := range pre { // value ::= class-def value
+		r.classDef(c.name, c.fields)
+	}
+	r.value(h)
+	back, perr := hparseAll(r.out)
+	if perr != nil {
+		return nil, 0, 0, fmt.Errorf("renderer produced an illegal rendering: %v", perr)
+	}
+	if back.String() != h.String() {
+		return nil, 0, 0, fmt.Errorf("renderer changed the value")
+	}
+	return r.out, r.nchoice, r.varied + len(pre), nil
+}
 func renderChecked2(h *hval, ch chooser) (bs []byte, nchoice, varied int, compactDate bool, err error) {
 	r := &renderer{ch: ch}
 	defer func() { compactDate = r.usedCompactDate }()
